@@ -89,10 +89,32 @@ fn prog_insns(p: P) -> Vec<I> {
     }
 }
 
-fn prog_bytes(p: P) -> &'static [u8] {
+/// Every program's buffer ends with one more slot holding an unsupported opcode, so that ill-formed
+/// byte strings exist that *start at the same address* as a loaded program: the program plus that
+/// slot (`prog_alias(p, true)`) and the program without its last instruction (`prog_alias(p, false)`).
+fn prog_buffers() -> &'static Vec<Vec<u8>> {
     static CELL: OnceLock<Vec<Vec<u8>>> = OnceLock::new();
-    let all = CELL.get_or_init(|| [P::A, P::B, P::H, P::X, P::M, P::L, P::D, P::R, P::O, P::S].iter().map(|p| isa::enc(&prog_insns(*p))).collect());
-    &all[p as usize]
+    CELL.get_or_init(|| {
+        [P::A, P::B, P::H, P::X, P::M, P::L, P::D, P::R, P::O, P::S].iter().map(|p| {
+            let mut b = isa::enc(&prog_insns(*p));
+            b.extend_from_slice(&[0x06, 0, 0, 0, 0, 0, 0, 0]);
+            b
+        }).collect()
+    })
+}
+
+fn prog_bytes(p: P) -> &'static [u8] {
+    let b = &prog_buffers()[p as usize];
+    &b[..b.len() - 8]
+}
+
+fn prog_alias(p: P, longer: bool) -> &'static [u8] {
+    let b = &prog_buffers()[p as usize];
+    if longer {
+        &b[..]
+    } else {
+        &b[..b.len() - 16]
+    }
 }
 
 fn helper_f(_: u64, _: u64, _: u64, _: u64, _: u64) -> u64 {
@@ -523,6 +545,18 @@ fn probe(m: &ApiModel, n: &St, real: &mut RealVm, via: Act) {
         };
         checks.push(("exec-after-failed-set_program", e, exec_real(vmx, kind, Eng::Interp, &PKT1)));
     }
+    // ... also when the refused byte string starts at the very address of the loaded program (the
+    // loaded program plus one ill-formed slot; the loaded program without its last instruction)
+    if let (Some(p), true) = (n.prog, n.verifier != V::AcceptAll) {
+        for (name, longer) in [("failing-set_program-of-an-extension-of-the-loaded-buffer", true), ("failing-set_program-of-a-prefix-of-the-loaded-buffer", false)] {
+            let o = match vmx.set_program(prog_alias(p, longer), OFFS[n.offs as usize]) {
+                Ok(()) => Obs::Ok,
+                Err(e) => Obs::Err(e),
+            };
+            checks.push((name, Exp::Err, o));
+        }
+        checks.push(("exec-after-failed-set_program-of-an-alias", value(p, n.helper, n.kind, n.offs, n.calc, &PKT1, Eng::Interp), exec_real(vmx, kind, Eng::Interp, &PKT1)));
+    }
     m.probes.fetch_add(checks.len() as u64, Ordering::Relaxed);
     for (name, e, o) in checks {
         if let Some(sym) = matches(&e, &o) {
@@ -815,6 +849,14 @@ pub fn run(s: &mut Sink) {
         }
         s.sample(&format!("part{part}"), || json!({"history": ["New(Fixed, Some(A))", "JitCompile", "SetProgram(B, 1)", "ExecJit"], "meaning": "each abstract transition replays such a history on a fresh VM"}));
         s.done(&format!("configuration part {part}: fix-point reached"));
+    }
+    // "not on earlier executions" - in particular not on an earlier execution that failed: the
+    // after-error family of the isa engine (a failing / succeeding writer, then a reader of the same
+    // stack slots on the same VM object, against the reader on a fresh VM), on all four VM kinds
+    if s.take(3) {
+        s.mark(3, "api", &json!({"kind":"none"}));
+        crate::isaeng::l6_after_error(s);
+        s.done("executions after a failed execution (interpreter, 4 VM kinds x 6 failure modes x 4 readers x 2 orders)");
     }
 }
 
